@@ -2,7 +2,7 @@
    in Proofs/C01.v; Print Assumptions beneath each.  [match_pat], [dispatch],
    [parse_pattern] are instantiated with the facts regenerated from the current
    source (anchor suffix, remainder group, default placeholder regex). *)
-From Coq Require Import List NArith Bool Permutation.
+From Coq Require Import List NArith Bool Permutation Sorting.Sorted.
 Import ListNotations.
 Require Import Verif.Lib.Wire Verif.Lib.Text Verif.Lib.PathNorm Verif.Lib.Utf8 Verif.Gen.Facts_C01 Verif.Model.C01 Verif.Proofs.C01
   Verif.Proofs.C01_b Verif.Gen.Prog_C01 Verif.Proofs.C01_gen Verif.Proofs.C01_x.
@@ -514,3 +514,44 @@ Theorem C01_method_no_get_no_head : forall vals,
   mem_text t_GET vals = false -> gen_method_call (method_init_model vals) t_HEAD = mem_text t_HEAD vals.
 Proof. exact method_no_get_no_head. Qed.
 Print Assumptions C01_method_no_get_no_head.
+
+(* ---- ninth round: the legacy path= argument; a route name declared by an include and re-declared by
+   the including configurator *)
+Theorem C01_generated_legacy_pattern_is_model : forall pattern path,
+  gen_legacy_pattern pattern path = legacy_pattern_model pattern path.
+Proof. exact gen_legacy_pattern_is_model. Qed.
+Print Assumptions C01_generated_legacy_pattern_is_model.
+
+Theorem C01_legacy_pattern_wins : forall p path, legacy_pattern_model (Some p) path = Some p.
+Proof. exact legacy_pattern_wins. Qed.
+Print Assumptions C01_legacy_pattern_wins.
+
+Theorem C01_legacy_path_alone : forall path, legacy_pattern_model None path = path.
+Proof. exact legacy_path_alone. Qed.
+Print Assumptions C01_legacy_path_alone.
+
+(* the declarations that survive the commit are exactly those whose verdict is "stands", each with the
+   index of its own declaration, in declaration order *)
+Theorem C01_resolve_overrides_char : forall xs surv, resolve_overrides xs = Some surv ->
+  StronglySorted lt (map fst surv)
+  /\ forall j x, In (j, x) surv <-> nth_error xs j = Some x /\ override_verdict xs x = Some true.
+Proof. exact resolve_overrides_char. Qed.
+Print Assumptions C01_resolve_overrides_char.
+
+Theorem C01_override_survivor_is_top : forall xs x y,
+  override_verdict xs x = Some true -> In y xs -> x_same x y = true -> y <> x -> In x xs -> x_top x = true.
+Proof. exact override_survivor_is_top. Qed.
+Print Assumptions C01_override_survivor_is_top.
+
+Theorem C01_generated_call_commutes_with_renaming : forall mt f m method raw,
+  fst (gen_call mt (ren_mapper f m) method raw) = ren_outcome f (fst (gen_call mt m method raw)).
+Proof. exact gen_call_ren. Qed.
+Print Assumptions C01_generated_call_commutes_with_renaming.
+
+Theorem C01_request_spec_survivors_generated : forall O f ds method raw m sts,
+  sup_with (spec_parse_m O) ds = true ->
+  connect_all_f (gen_connect (parse_pattern_m O)) empty_mapper 0 ds = (m, sts) ->
+  ren_spec f (spec_request_m O ds method raw)
+  = spec_of_outcome (fst (gen_call (match_pat_m O) (ren_mapper f m) method raw)).
+Proof. exact gen_request_spec_survivors. Qed.
+Print Assumptions C01_request_spec_survivors_generated.
